@@ -49,7 +49,7 @@ def cs_vcat(it, a, k):
     if isinstance(parts, _SymStar):
         parts = parts.seq
     if isinstance(parts, SSeq):
-        probe = parts.elem(T.fresh("vc", T.INT))
+        probe = parts.elem(cur().fresh_index(parts.n, "vc"))
         if isinstance(probe, Arr) and not (T.is_const(probe.n) and T.cval(probe.n) == 1):
             raise Unsupported("vcat of a symbolic number of vectors")
         return A.concat("cs", parts, "m")
@@ -75,9 +75,7 @@ class SymClass:
                 m2 = a[2] if len(a) > 2 else 1
                 if m2 != 1:
                     raise Unsupported("non-column symbol")
-                self.counter += 1
-                f = T.uf(f"cs.{self.name}.sym!{self.counter}", [T.INT], T.REAL)
-                return mk_vec("cs", "m", T.lift(n, T.INT), lambda i: f(i), "fresh", symtype=self.name)
+                return new_symbol(self.name, a[0] if a else "sym", n)
 
             return Builtin(f"cs.{self.name}.sym", sym)
         if attr == "__name__":
@@ -99,12 +97,104 @@ class SymClass:
         return f"<cs.{self.name}>"
 
 
+SYMS = {}
+_symctr = [0]
+
+
+def new_symbol(symtype, name, n):
+    _symctr[0] += 1
+    sid = _symctr[0]
+    f = T.uf(f"cs.{symtype}.sym!{sid}", [T.INT], T.REAL)
+    a = mk_vec("cs", "m", T.lift(n, T.INT), lambda i: f(i), "fresh", symtype=symtype)
+    a.buf.is_var, a.buf.prov, a.buf.symid = True, (sid,), sid
+    SYMS[sid] = (a, name)
+    return a
+
+
+def cs_symvar(it, a, k):
+    x = _m(a[0])
+    prov = x.buf.prov
+    if x.symtype == "MX":
+        return [SYMS[p][0] for p in prov]
+    if len(prov) == 1:
+        sym = SYMS[prov[0]][0]
+        def entry(i, sym=sym):
+            i = T.lift(i, T.INT)
+            v = sym.at(i)
+            r = mk_vec("cs", "m", 1, lambda j, v=v: v, "fresh", symtype=sym.symtype)
+            r.buf.prov, r.buf.symid, r.buf.is_var = sym.buf.prov, ("entry", sym.buf.symid, i), True
+            return r
+
+        seq = SSeq(sym.n, entry, f"symvar({prov[0]})")
+        seq.entries_of, seq.symtype = prov[0], sym.symtype
+        return seq
+    if not prov:
+        return []
+    raise Unsupported("symvar of an SX expression over several symbol vectors")
+
+
 def arr_method(interp, a, name):
+    if name == "n_dep":
+        # 0 for a pure symbol (or a constant), > 0 for an expression
+        return Builtin("cs.n_dep", lambda it, aa, k: 0 if (a.buf.symid is not None or not a.buf.prov) else 1)
+    if name == "name":
+        return Builtin("cs.name", lambda it, aa, k: SYMS[a.buf.symid][1] if a.buf.symid in SYMS else _unsup_name())
     if name == "size1":
         return Builtin("cs.size1", lambda it, aa, k: a.n)
     if name == "shape":
         raise Unsupported("shape handled elsewhere")
     raise Unsupported(f"casadi attribute {name}")
+
+
+def _unsup_name():
+    raise Unsupported("name() of a non-symbol")
+
+
+class FunctionModel:
+    """casadi.Function(name, ins, outs, names_in, names_out, opts) - assumed contract: raises
+    RuntimeError unless every input is purely symbolic (a symbol or a stack of distinct symbols) and
+    every symbol the outputs depend on is among the inputs; calling it substitutes the arguments"""
+
+    def __init__(self, name, ins, outs, names_in, names_out, opts):
+        self.name, self.ins, self.outs, self.names_in, self.names_out, self.opts = name, ins, outs, names_in, names_out, opts
+
+
+class FunctionClass:
+    def pyvc_call(self, interp, args, kwargs):
+        c = cur()
+        if len(args) < 3:
+            raise Unsupported("cs.Function with fewer than 3 arguments")
+        name, ins, outs = args[0], list(args[1]), list(args[2])
+        names_in = list(args[3]) if len(args) > 3 else None
+        names_out = list(args[4]) if len(args) > 4 else None
+        opts = args[5] if len(args) > 5 else kwargs.get("opts")
+        seen = []
+        pure_ok = True
+        why = ""
+        for k_, x in enumerate(ins):
+            if not isinstance(x, Arr) or x.dialect != "cs":
+                pure_ok, why = False, f"input {k_} is not a CasADi value"
+                continue
+            is_pure = (x.buf.symid is not None and not isinstance(x.buf.symid, tuple)) or x.buf.pure_stack
+            if not is_pure and x.buf.prov:
+                pure_ok, why = False, f"input {k_} is an expression, not a stack of symbols"
+            for p in x.buf.prov:
+                if p in seen:
+                    pure_ok, why = False, f"symbol {SYMS[p][1]} occurs in two inputs"
+                seen.append(p)
+        free = []
+        for y in outs:
+            if isinstance(y, Arr):
+                for p in y.buf.prov:
+                    if p not in seen and p not in free:
+                        free.append(p)
+        c.effects.append(("cs.Function", name, len(ins), len(outs)))
+        if not pure_ok or free:
+            c.effects.append(("cs.Function-raises", "inputs not purely symbolic" if not pure_ok else f"free symbols {free}"))
+            raise PyRaise(ExcValue("RuntimeError", ("casadi.Function: " + (f"inputs must be purely symbolic and distinct ({why})" if not pure_ok else f"free variables {[SYMS[p][1] for p in free]}"),)))
+        if names_in is not None and len(names_in) != len(ins) or names_out is not None and len(names_out) != len(outs):
+            raise PyRaise(ExcValue("RuntimeError", ("casadi.Function: number of names differs from number of arguments",)))
+        return FunctionModel(name, ins, outs, names_in, names_out, opts)
 
 
 def make_module():
@@ -121,5 +211,6 @@ def make_module():
     ns["vertcat"] = Builtin("cs.vertcat", cs_vertcat)
     for n in ("SX", "MX", "DM"):
         ns[n] = SymClass(n)
-    ns["Function"] = _TypingThing("cs.Function")
+    ns["symvar"] = Builtin("cs.symvar", cs_symvar)
+    ns["Function"] = FunctionClass()
     return m
